@@ -250,6 +250,11 @@ def g_perm(draw):
         n = gen.integer(draw, F + 2 * K + 2, 20)
         X, _ = full_rank_data(draw, n, F)
         y = np.concatenate([np.arange(K), np.arange(K), r.integers(0, K, n - 2 * K)])
+        if gen.boolean(draw):
+            # a class may hold a single sample (it adds no scatter and still counts as a class)
+            lone = gen.integer(draw, 0, K - 1)
+            y = np.concatenate([np.arange(K), np.array([k_ for k_ in range(K) if k_ != lone]),
+                                r.choice([k_ for k_ in range(K) if k_ != lone], n - 2 * K + 1)])
         c.update(X=X, y=y[np.array(gen.permutation(draw, n))], perm=gen.permutation(draw, n),
                  relabel=gen.permutation(draw, K), dask=gen.boolean(draw), chunks=gen.composition(draw, n, max_parts=4))
     else:
